@@ -54,6 +54,7 @@ var (
 
 // ref is the uncrashed run of one block list.
 type ref struct {
+	shc    uint32
 	root   string
 	blocks []*types.Block // blocks[i] = block of height i (1..n)
 	snaps  []string       // snaps[i] = closed data directory at height i (0..n)
@@ -65,7 +66,8 @@ type ref struct {
 
 // srcOrder is the order of the three CommitTo calls in submitBlock of the tree under check ("bes" as shipped);
 // "" with srcOrderErr set when the source does not have exactly one call of each.
-var srcOrder, srcOrderErr string
+// srcRecOrder: the same for the commits of one iteration of recoverStore's replay loop ("es" as shipped).
+var srcOrder, srcRecOrder, srcOrderErr string
 
 func readCommitOrder() {
 	repo := os.Getenv("VERIF_REPO")
@@ -80,33 +82,52 @@ func readCommitOrder() {
 		return
 	}
 	letters := map[string]string{"blockStore": "b", "eventStore": "e", "stateStore": "s"}
-	found := false
-	for _, d := range f.Decls {
-		fd, ok := d.(*ast.FuncDecl)
-		if !ok || fd.Name.Name != "submitBlock" || fd.Body == nil {
-			continue
-		}
-		found = true
-		ast.Inspect(fd.Body, func(n ast.Node) bool {
-			ce, ok := n.(*ast.CallExpr)
-			if !ok {
-				return true
+	commitsOf := func(fn string) (string, bool) {
+		order, found := "", false
+		for _, d := range f.Decls {
+			fd, ok := d.(*ast.FuncDecl)
+			if !ok || fd.Name.Name != fn || fd.Body == nil {
+				continue
 			}
-			sel, ok := ce.Fun.(*ast.SelectorExpr)
-			if !ok || sel.Sel.Name != "CommitTo" {
-				return true
-			}
-			if in, ok := sel.X.(*ast.SelectorExpr); ok {
-				if id, ok := in.X.(*ast.Ident); ok && id.Name == "this" {
-					srcOrder += letters[in.Sel.Name]
+			found = true
+			ast.Inspect(fd.Body, func(n ast.Node) bool {
+				ce, ok := n.(*ast.CallExpr)
+				if !ok {
+					return true
 				}
-			}
-			return true
-		})
+				sel, ok := ce.Fun.(*ast.SelectorExpr)
+				if !ok || sel.Sel.Name != "CommitTo" {
+					return true
+				}
+				if in, ok := sel.X.(*ast.SelectorExpr); ok {
+					if id, ok := in.X.(*ast.Ident); ok && id.Name == "this" {
+						order += letters[in.Sel.Name]
+					}
+				}
+				return true
+			})
+		}
+		return order, found
 	}
-	if !found || len(srcOrder) != 3 || !strings.Contains(srcOrder, "b") || !strings.Contains(srcOrder, "e") || !strings.Contains(srcOrder, "s") {
+	distinct := func(o string) bool {
+		for i, c := range o {
+			if strings.ContainsRune(o[i+1:], c) {
+				return false
+			}
+		}
+		return true
+	}
+	var found bool
+	srcOrder, found = commitsOf("submitBlock")
+	if !found || len(srcOrder) != 3 || !distinct(srcOrder) {
 		srcOrderErr = fmt.Sprintf("%s: submitBlock does not call blockStore/eventStore/stateStore.CommitTo exactly once each (found %q)", file, srcOrder)
 		srcOrder = ""
+		return
+	}
+	srcRecOrder, found = commitsOf("recoverStore")
+	if !found || srcRecOrder == "" || !distinct(srcRecOrder) {
+		srcOrderErr = fmt.Sprintf("%s: recoverStore's CommitTo calls not readable (found %q)", file, srcRecOrder)
+		srcRecOrder = ""
 	}
 }
 
@@ -163,9 +184,9 @@ func parseTx(s string, nonce uint32) (*types.Transaction, error) {
 	return nil, fmt.Errorf("bad tx %q", s)
 }
 
-func buildRef(spec string) *ref {
+func buildRef(shc uint32, spec string) *ref {
 	refSeq++
-	r := &ref{root: filepath.Join(tmpRoot, fmt.Sprintf("ref%d", refSeq))}
+	r := &ref{shc: shc, root: filepath.Join(tmpRoot, fmt.Sprintf("ref%d", refSeq))}
 	fail := func(format string, a ...interface{}) *ref { r.err = fmt.Sprintf(format, a...); return r }
 	live := filepath.Join(r.root, "live")
 	os.MkdirAll(live, 0o755)
@@ -194,7 +215,7 @@ func buildRef(spec string) *ref {
 		r.flen = append(r.flen, len(fb))
 		return nil
 	}
-	k, err := ledgerkit.Open(live, accts[0])
+	k, err := ledgerkit.OpenAt(live, accts[0], shc)
 	if err != nil {
 		return fail("genesis: %v", err)
 	}
@@ -203,7 +224,7 @@ func buildRef(spec string) *ref {
 	}
 	for i, op := range ops {
 		h := i + 1
-		k, err := ledgerkit.Open(live, accts[0]) // the uncrashed node is itself closed and reopened between blocks
+		k, err := ledgerkit.OpenAt(live, accts[0], shc) // the uncrashed node is itself closed and reopened between blocks
 		if err != nil {
 			return fail("reopen of the uncrashed ledger at height %d: %v", h-1, err)
 		}
@@ -236,8 +257,9 @@ func buildRef(spec string) *ref {
 	return r
 }
 
-func getRef(spec string) *ref {
-	if r, ok := refs[spec]; ok {
+func getRef(shc uint32, spec string) *ref {
+	key := fmt.Sprintf("%d %s", shc, spec)
+	if r, ok := refs[key]; ok {
 		return r
 	}
 	if len(refs) >= 3 { // keep the scratch space small
@@ -246,8 +268,8 @@ func getRef(spec string) *ref {
 			delete(refs, s)
 		}
 	}
-	r := buildRef(spec)
-	refs[spec] = r
+	r := buildRef(shc, spec)
+	refs[key] = r
 	return r
 }
 
@@ -299,29 +321,187 @@ func fileLen(dir string) int {
 	return int(st.Size())
 }
 
+// spec is one parsed case line.
+type spec struct {
+	kind   string // CR composed, RC real death in the commit, RR real death in the recovery of a composed state
+	shc    uint32 // stateHashCheckHeight of every open of this case (`CR@3:...`; default 0)
+	h      int
+	set    string // durable commits of the first crash, letters of "bes" in that order ("" = none)
+	tTok   string
+	cycles [][2]string // composed crashes during recovery: (number of durable recovery commits, bytes of the re-append)
+	x      string      // RC / RR: the store whose commit fails
+}
+
+var storeDir = map[string]string{"b": ledgerkit.DirBlock, "e": ledgerkit.DirEvent, "s": ledgerkit.DirState}
+var storeName = map[string]string{"b": "block", "e": "event", "s": "state"}
+
+func parseSpec(hdr string) (sp spec, ok bool) {
+	f := strings.Split(hdr, ":")
+	tag := strings.SplitN(f[0], "@", 2)
+	sp.kind = tag[0]
+	if len(tag) == 2 {
+		v, err := strconv.ParseUint(tag[1], 10, 32)
+		if err != nil {
+			return sp, false
+		}
+		sp.shc = uint32(v)
+	}
+	canon := func(s string) (string, bool) {
+		if l, ok := legacyK[s]; ok {
+			s = l
+		}
+		if !validSet[s] {
+			return "", false
+		}
+		return strings.Trim(s, "-"), true
+	}
+	digits := func(s string) bool {
+		if s == "" {
+			return false
+		}
+		for _, c := range s {
+			if c < '0' || c > '9' {
+				return false
+			}
+		}
+		return true
+	}
+	tok := func(s string) bool { return s == "all" || digits(s) }
+	var err error
+	if len(f) < 3 || !digits(f[1]) {
+		return sp, false
+	}
+	if sp.h, err = strconv.Atoi(f[1]); err != nil {
+		return sp, false
+	}
+	switch sp.kind {
+	case "CR":
+		if len(f) < 4 || (len(f)-4)%2 != 0 || !tok(f[3]) {
+			return sp, false
+		}
+		if sp.set, ok = canon(f[2]); !ok {
+			return sp, false
+		}
+		sp.tTok = f[3]
+		for i := 4; i < len(f); i += 2 {
+			if !digits(f[i]) || !tok(f[i+1]) {
+				return sp, false
+			}
+			sp.cycles = append(sp.cycles, [2]string{f[i], f[i+1]})
+		}
+	case "RC":
+		if len(f) != 3 || storeDir[f[2]] == "" {
+			return sp, false
+		}
+		sp.x, sp.tTok = f[2], "all"
+	case "RR":
+		if len(f) != 5 || !tok(f[3]) || storeDir[f[4]] == "" {
+			return sp, false
+		}
+		if sp.set, ok = canon(f[2]); !ok {
+			return sp, false
+		}
+		sp.tTok, sp.x = f[3], f[4]
+	default:
+		return sp, false
+	}
+	return sp, true
+}
+
+func clampT(tok string, app int) int {
+	if tok == "all" {
+		return app
+	}
+	v, err := strconv.Atoi(tok)
+	if err != nil || v > app {
+		return app
+	}
+	return v
+}
+
+// before: the stores committed before store x in the given order
+func before(order, x string) string {
+	if i := strings.Index(order, x); i >= 0 {
+		return order[:i]
+	}
+	return order
+}
+
+// canonical letters in b,e,s order
+func canonSet(s string) string {
+	out := ""
+	for _, c := range "bes" {
+		if strings.ContainsRune(s, c) {
+			out += string(c)
+		}
+	}
+	return out
+}
+
+// recoveryCycle composes the directory a process leaves when it dies during the reopen of cur after k durable commits
+// of the recovery iteration (source order of recoverStore) and t bytes of its hash-file re-append: the recovery is run
+// to completion on a copy (the real recoverStore), then its effects are taken over store by store / byte by byte.
+func recoveryCycle(r *ref, h int, cur, done, next string, k, t int) error {
+	if err := ledgerkit.CopyDir(cur, done); err != nil {
+		return err
+	}
+	kit, err := ledgerkit.OpenAt(done, accts[0], r.shc)
+	if err != nil {
+		return ledgerkit.CopyDir(cur, next) // the reopen fails before any durable step
+	}
+	kit.SafeClose()
+	fc, err := ledgerkit.MerkleFileBytes(cur)
+	if err != nil {
+		return err
+	}
+	fd, err := ledgerkit.MerkleFileBytes(done)
+	if err != nil {
+		return err
+	}
+	file := append([]byte(nil), fc...)
+	p := r.flen[h-1] // offset the recovery writes at = size of the committed tree's hashes
+	for i := p; i < p+t && i < len(fd); i++ {
+		if i < len(file) {
+			file[i] = fd[i]
+		} else {
+			file = append(file, fd[i])
+		}
+	}
+	pick := map[string]string{}
+	if k > len(srcRecOrder) {
+		k = len(srcRecOrder)
+	}
+	for _, c := range srcRecOrder[:k] {
+		pick[storeDir[string(c)]] = done
+	}
+	return ledgerkit.ComposeFrom(next, cur, pick, file)
+}
+
 func exec(line string) hx.Result {
-	sp := strings.SplitN(line, " ", 2)
-	hd := strings.Split(sp[0], ":")
 	if line == "NOP" {
 		return hx.Result{Out: "skip", Kind: "nop"}
 	}
-	if len(sp) != 2 || len(hd) != 4 || hd[0] != "CR" {
+	parts := strings.SplitN(line, " ", 2)
+	if len(parts) != 2 {
 		return hx.Result{Out: "bad-op"}
 	}
-	h, e1 := strconv.Atoi(hd[1])
-	set := hd[2]
-	if l, ok := legacyK[set]; ok {
-		set = l
+	if k := strings.SplitN(strings.SplitN(parts[0], ":", 2)[0], "@", 2)[0]; k != "CR" && k != "RC" && k != "RR" {
+		return hx.Result{Out: "bad-op"}
 	}
-	ops := strings.Split(sp[1], ";")
+	sp, ok := parseSpec(parts[0])
+	ops := strings.Split(parts[1], ";")
 	n := len(ops)
-	if e1 != nil || !validSet[set] || h < 1 || h+2 > n {
+	if !ok || sp.h < 1 || sp.h+2 > n {
 		return hx.Result{Out: "skip", Kind: "skip"}
 	}
-	if srcOrder == "" {
-		return hx.Result{Out: "order-unknown", Fail: "commit order of submitBlock not readable: " + srcOrderErr, Class: "commit-order-unreadable", Kind: "harness-error"}
+	if srcOrder == "" || srcRecOrder == "" {
+		return hx.Result{Out: "order-unknown", Fail: "commit order of submitBlock / recoverStore not readable: " + srcOrderErr, Class: "commit-order-unreadable", Kind: "harness-error"}
 	}
-	set = strings.Trim(set, "-")
+	h := sp.h
+	set := sp.set
+	if sp.kind == "RC" {
+		set = canonSet(before(srcOrder, sp.x)) // what the real code has committed when the commit of x fails
+	}
 	hasB, hasE, hasS := strings.Contains(set, "b"), strings.Contains(set, "e"), strings.Contains(set, "s")
 	k := len(set)
 	kname := set
@@ -329,7 +509,7 @@ func exec(line string) hx.Result {
 		kname = "none"
 	}
 	reach := reachable(set)
-	r := getRef(sp[1])
+	r := getRef(sp.shc, parts[1])
 	if r.err != "" {
 		// the uncrashed run itself failed: not a crash case (bad op list) unless it is a reopen failure of the uncrashed ledger
 		if strings.HasPrefix(r.err, "bad tx") {
@@ -338,16 +518,7 @@ func exec(line string) hx.Result {
 		return hx.Result{Out: "uncrashed-failed", Fail: "uncrashed run failed: " + r.err, Class: "uncrashed-run", Kind: "uncrashed-failed"}
 	}
 	app := r.flen[h] - r.flen[h-1]
-	t := app
-	if hd[3] != "all" {
-		v, err := strconv.Atoi(hd[3])
-		if err != nil || v < 0 {
-			return hx.Result{Out: "skip", Kind: "skip"}
-		}
-		if v < t {
-			t = v
-		}
-	}
+	t := clampT(sp.tTok, app)
 	tkind := "full"
 	switch {
 	case t == app:
@@ -358,19 +529,76 @@ func exec(line string) hx.Result {
 	default:
 		tkind = "midhash"
 	}
-	// a state-store commit with a torn hash file needs the file's Sync to have been lost: not reachable by process death
-	fsyncLost := hasS && t < app
-
-	if fsyncLost {
-		// not executed: the model prints the same token. (As shipped this state opens with the hash store disabled and
-		// StateStore.Close then dereferences the nil store; outside the property's quantifier.)
+	// a state-store commit with a torn hash file needs the file's Sync to have been lost (or its write error ignored):
+	// not reachable by process death. Not executed; the model prints the same token.
+	if hasS && t < app {
 		return hx.Result{Out: "unreachable", Kind: "state-committed-torn-file(unreachable: needs a lost fsync)"}
 	}
+	type cyc struct{ k, t int }
+	var cycles []cyc
+	for _, c := range sp.cycles {
+		ck, _ := strconv.Atoi(c[0])
+		cycles = append(cycles, cyc{ck, clampT(c[1], app)})
+	}
+	if sp.kind == "RR" {
+		cycles = []cyc{{len(before(srcRecOrder, sp.x)), app}}
+	}
+	for _, c := range cycles {
+		kk := c.k
+		if kk > len(srcRecOrder) {
+			kk = len(srcRecOrder)
+		}
+		if strings.Contains(srcRecOrder[:kk], "s") && c.t < app {
+			return hx.Result{Out: "unreachable", Kind: "state-committed-torn-file(unreachable: needs a lost fsync)"}
+		}
+	}
 	caseSeq++
-	dir := filepath.Join(tmpRoot, fmt.Sprintf("case%d", caseSeq))
-	defer os.RemoveAll(dir)
-	if err := ledgerkit.ComposeCrashDir(dir, r.snaps[h-1], r.snaps[h], hasB, hasE, hasS, t); err != nil {
-		return hx.Result{Out: "compose-failed", Fail: "compose: " + err.Error(), Class: "harness", Kind: "harness-error"}
+	work := filepath.Join(tmpRoot, fmt.Sprintf("case%d", caseSeq))
+	defer os.RemoveAll(work)
+	dir := filepath.Join(work, "d0")
+	harnessErr := func(what string, err error) hx.Result {
+		return hx.Result{Out: "compose-failed", Fail: what + ": " + err.Error(), Class: "harness", Kind: "harness-error"}
+	}
+	variant := "composed"
+	switch sp.kind {
+	case "CR":
+		if err := ledgerkit.ComposeCrashDir(dir, r.snaps[h-1], r.snaps[h], hasB, hasE, hasS, t); err != nil {
+			return harnessErr("compose", err)
+		}
+		for i, c := range cycles {
+			next := filepath.Join(work, fmt.Sprintf("d%d", i+1))
+			if err := recoveryCycle(r, h, dir, filepath.Join(work, fmt.Sprintf("done%d", i+1)), next, c.k, c.t); err != nil {
+				return harnessErr("recovery cycle", err)
+			}
+			dir = next
+			variant = fmt.Sprintf("composed+%d-recovery-crashes", i+1)
+		}
+	case "RC":
+		live := filepath.Join(work, "live")
+		if err := ledgerkit.CopyDir(r.snaps[h-1], live); err != nil {
+			return harnessErr("copy", err)
+		}
+		died, err := ledgerkit.DieInCommit(live, dir, accts[0], r.shc, r.blocks[h], storeName[sp.x])
+		if err != nil {
+			return harnessErr("real crash in commit", err)
+		}
+		if !died {
+			return hx.Result{Out: "no-death", Fail: "SubmitBlock succeeded although the " + storeName[sp.x] + " store refuses writes", Class: "harness-no-death", Kind: "harness-error"}
+		}
+		variant = "REAL-death-at-" + storeName[sp.x] + "-commit"
+	case "RR":
+		d1 := filepath.Join(work, "first")
+		if err := ledgerkit.ComposeCrashDir(d1, r.snaps[h-1], r.snaps[h], hasB, hasE, hasS, t); err != nil {
+			return harnessErr("compose", err)
+		}
+		died, err := ledgerkit.DieInRecovery(d1, dir, accts[0], r.shc, storeName[sp.x])
+		if err != nil {
+			return harnessErr("real crash in recovery", err)
+		}
+		variant = "composed+REAL-death-in-recovery-at-" + storeName[sp.x] + "-commit"
+		if !died {
+			variant = "composed+recovery-with-" + storeName[sp.x] + "-store-readonly-completed"
+		}
 	}
 
 	var out []string
@@ -393,15 +621,18 @@ func exec(line string) hx.Result {
 		if bad != "" {
 			outcome = "FAILED-" + bad
 		}
-		res.Kind = fmt.Sprintf("%s-t%s-%s", kname, tkind, outcome)
+		res.Kind = fmt.Sprintf("%s:%s-t%s-%s", variant, kname, tkind, outcome)
 		if bad != "" {
 			stage := bad
 			if strings.HasPrefix(bad, "obs") || strings.HasPrefix(bad, "stores") {
 				stage = strings.SplitN(bad, ":", 2)[0] // which fields differ depends on the block content: kept in Fail only
 			}
 			res.Class = fmt.Sprintf("crash-%s:%s", kname, stage)
-			res.Fail = fmt.Sprintf("crash while committing block %d with the commits {%s} durable (%d of 3, a prefix of the source's commit order %q) and %d/%d hash-file bytes durable: %s (%s) [%s]",
-				h, kname, k, srcOrder, t, app, bad, notes, res.Out)
+			if len(cycles) > 0 {
+				res.Class = fmt.Sprintf("crash-%s+recovery-crash:%s", kname, stage)
+			}
+			res.Fail = fmt.Sprintf("[%s; recovery crashes %v; stateHashCheckHeight %d] crash while committing block %d with the commits {%s} durable (%d of 3, a prefix of the source's commit order %q) and %d/%d hash-file bytes durable: %s (%s) [%s]",
+				variant, cycles, r.shc, h, kname, k, srcOrder, t, app, bad, notes, res.Out)
 		}
 		return res
 	}
@@ -410,7 +641,7 @@ func exec(line string) hx.Result {
 		// not a crash state of the tree under check: the real reopen is still executed and its outcome compared with the
 		// model's, but the recovery predicate does not apply
 		res := hx.Result{Key: line}
-		kit, err := ledgerkit.SafeOpen(dir, accts[0])
+		kit, err := ledgerkit.OpenAt(dir, accts[0], r.shc)
 		if err != nil {
 			res.Out = "reach=0 open=err:" + errClass(err)
 		} else {
@@ -421,7 +652,7 @@ func exec(line string) hx.Result {
 		return res
 	}
 	out = append(out, "reach=1")
-	kit, err := ledgerkit.SafeOpen(dir, accts[0])
+	kit, err := ledgerkit.OpenAt(dir, accts[0], r.shc)
 	if err != nil {
 		out = append(out, "open=err:"+errClass(err))
 		flag("open-err:"+errClass(err), err.Error())
@@ -479,7 +710,7 @@ func exec(line string) hx.Result {
 	} else {
 		out = append(out, "stores=na")
 	}
-	kit2, err := ledgerkit.SafeOpen(dir, accts[0])
+	kit2, err := ledgerkit.OpenAt(dir, accts[0], r.shc)
 	if err != nil {
 		out = append(out, "reopen=err:"+errClass(err))
 		flag("reopen-err:"+errClass(err), err.Error())
@@ -548,22 +779,71 @@ func genChain(r *hx.Rand, nblocks, maxTx int) string {
 
 var pending []string
 
-func compositions(r *hx.Rand, chain string, crashable int) []string {
+// compositions: for every block of the chain, every subset x every hash-file variant (first-level), the real deaths at
+// each commit (RC), and second-level states: crashes during the recovery of the block-committed states, composed (CR
+// with cycles: every (durable recovery commits, bytes of the re-append) in the thorough tier, a random sample in quick)
+// and real (RR).
+func compositions(r *hx.Rand, tier, chain string, crashable int) []string {
 	var out []string
+	tag := "CR"
+	tagOf := func(k string) string { return k }
+	if tier == "thorough" && r.Chance(40) {
+		shc := 1 + r.Intn(crashable+1) // stateHashCheckHeight > 0: explored on the implementation only
+		tag = fmt.Sprintf("CR@%d", shc)
+		tagOf = func(k string) string { return fmt.Sprintf("%s@%d", k, shc) }
+	}
 	for h := 1; h <= crashable; h++ {
 		a := 1 + trailingOnes(h) // hashes appended when the tree grows from h to h+1 leaves
 		var ts []string
 		for j := 0; j < a; j++ {
 			ts = append(ts, fmt.Sprint(32*j))
 		}
-		ts = append(ts, fmt.Sprint(32*r.Intn(a)+1+r.Intn(31)), "all")
+		mid := fmt.Sprint(32*r.Intn(a) + 1 + r.Intn(31))
+		ts = append(ts, mid, "all")
 		for _, set := range []string{"-", "b", "e", "s", "be", "bs", "es", "bes"} {
 			for _, t := range ts {
 				if strings.Contains(set, "s") && t != "all" {
 					continue // state store committed but hash file torn: needs a lost fsync, not a process death
 				}
-				out = append(out, fmt.Sprintf("CR:%d:%s:%s %s", h, set, t, chain))
+				out = append(out, fmt.Sprintf("%s:%d:%s:%s %s", tag, h, set, t, chain))
 			}
+		}
+		for _, x := range []string{"b", "e", "s"} {
+			out = append(out, fmt.Sprintf("%s:%d:%s %s", tagOf("RC"), h, x, chain))
+		}
+		// crashes during recovery
+		type c2 struct{ set, t, k, t2 string }
+		var all []c2
+		for _, set := range []string{"b", "be", "-"} {
+			for _, t := range []string{"0", mid, "all"} {
+				for _, kt := range [][2]string{{"0", "0"}, {"0", fmt.Sprint(1 + r.Intn(32*a-1))}, {"0", "all"}, {"1", "all"}, {"2", "all"}} {
+					all = append(all, c2{set, t, kt[0], kt[1]})
+				}
+			}
+		}
+		pick := all
+		if tier != "thorough" {
+			pick = nil
+			for i := 0; i < 3; i++ {
+				pick = append(pick, all[r.Intn(30)]) // among the block-committed first-level states
+			}
+		}
+		for _, c := range pick {
+			line := fmt.Sprintf("%s:%d:%s:%s:%s:%s", tag, h, c.set, c.t, c.k, c.t2)
+			if r.Chance(25) { // a third death
+				line += fmt.Sprintf(":%d:%s", r.Intn(2), []string{"0", "all", "17"}[r.Intn(3)])
+			}
+			out = append(out, line+" "+chain)
+		}
+		for _, x := range []string{"e", "s"} {
+			set := []string{"b", "be"}[r.Intn(2)]
+			if tier == "thorough" {
+				for _, set := range []string{"b", "be", "-", "bes"} {
+					out = append(out, fmt.Sprintf("%s:%d:%s:%s:%s %s", tagOf("RR"), h, set, []string{"0", mid, "all"}[r.Intn(3)], x, chain))
+				}
+				continue
+			}
+			out = append(out, fmt.Sprintf("%s:%d:%s:%s:%s %s", tagOf("RR"), h, set, []string{"0", mid, "all"}[r.Intn(3)], x, chain))
 		}
 	}
 	return out
@@ -571,7 +851,7 @@ func compositions(r *hx.Rand, chain string, crashable int) []string {
 
 // budget caps the number of real cases of one run (a case costs ~0.3 s: ledger opens on LevelDB directories); the
 // focused search of ./check asks for 20000 cases, everything beyond the cap is the no-op line `NOP`.
-var budget = map[string]int{"quick": 112 * 3, "thorough": 6000}
+var budget = map[string]int{"quick": 160 * 2, "thorough": 8000}
 
 func gen(r *hx.Rand, tier string, i int) string {
 	if i >= budget[tier] {
@@ -582,7 +862,7 @@ func gen(r *hx.Rand, tier string, i int) string {
 		if tier == "thorough" {
 			crashable, maxTx = 4+r.Intn(12), 1+r.Intn(5)
 		}
-		pending = compositions(r, genChain(r, crashable+2, maxTx), crashable)
+		pending = compositions(r, tier, genChain(r, crashable+2, maxTx), crashable)
 	}
 	l := pending[0]
 	pending = pending[1:]
@@ -602,12 +882,14 @@ func main() {
 		Rule: "for one generated chain of 8 blocks of ONT/ONG transfers and ONG claims (thorough: several chains of up to 17 blocks, up to 5 txs per block): EVERY crash composition of every block 1..6 — " +
 			"all 8 subsets of {block, event, state} store commits durable x hash-file append cut at every 32-byte boundary, one mid-hash offset, and complete — composed from directory snapshots of the real LevelDB stores; " +
 			"the predicate applies to the subsets that are prefixes of the CommitTo order read from submitBlock's source of the tree under check, the others are only reopened; " +
+			"plus REAL deaths produced by the code itself (RC: the LevelDB of one store refuses writes, SubmitBlock stops at its CommitTo, the directory is taken as it is; RR: the same inside recoverStore when a composed state is reopened) " +
+			"and second/third-level states (CR:..:k':t': the process dies again during recovery after k' recovery commits and t' bytes of the re-append; composed from the directory before and after a completed real recovery); thorough: 40% of the chains with stateHashCheckHeight > 0; " +
 			"reopened with InitLedger, compared with the uncrashed ledger (height, hashes, roots, inclusion proof, balances, events), fed the next two blocks, stores compared key by key, reopened again. Non-trivial = distinct line",
 		Gen:     gen,
 		Exec:    exec,
 		Init:    initAccts,
 		Isolate: true,
 		Timeout: 120 * 1e9,
-		N:       map[string]int{"quick": 112, "thorough": 1500},
+		N:       map[string]int{"quick": 160, "thorough": 2500},
 	})
 }
